@@ -203,8 +203,9 @@ def check_case(case):
         if far == "sampler":
             return xyz.Sampler(
                 r, data_name=os.path.join(root, "table.pkl"),
+                # (choices listed in another order than the signature)
                 default_combos={a: _ns["draw"](a, list(v))
-                                for a, v in combos})
+                                for a, v in list(combos)[::-1]})
         return r
 
     def direct(farmer, overwrite=None):
